@@ -52,8 +52,11 @@ ValDiff(V, W, e) ==
 Detail(clause, step, k, b, V, W, d) ==
   ToJson([clause |-> clause, step |-> step, k |-> k, b |-> b, val |-> d[1],
           locidx |-> d[2],
-          before |-> IF d[1] > 0 /\ d[2] > 0 THEN V[d[1]][d[2]] ELSE "?",
-          after |-> IF d[1] > 0 /\ d[2] > 0 /\ d[2] <= Len(W[d[1]]) THEN W[d[1]][d[2]] ELSE "?"])
+          \* d[2] = -1: the two evaluations do not even list the same locations (one of them raised)
+          before |-> IF d[1] > 0 /\ d[2] > 0 THEN V[d[1]][d[2]]
+                     ELSE IF d[1] > 0 /\ d[2] = -1 /\ Len(V[d[1]]) > 0 THEN V[d[1]][1] ELSE "?",
+          after |-> IF d[1] > 0 /\ d[2] > 0 /\ d[2] <= Len(W[d[1]]) THEN W[d[1]][d[2]]
+                    ELSE IF d[1] > 0 /\ d[2] = -1 /\ Len(W[d[1]]) > 0 THEN W[d[1]][1] ELSE "?"])
 
 Set(v, f, val) == IF v[f] = "ok" THEN [v EXCEPT ![f] = val] ELSE v
 
